@@ -11,6 +11,11 @@ use std::collections::HashMap;
 use std::net::SocketAddr;
 use std::slice::Iter;
 
+/// Size of the receive buffer. The whole status reply is one datagram, and
+/// whatever does not fit in the buffer is discarded by the socket; this is the
+/// size no UDP datagram exceeds.
+const PACKET_SIZE: usize = 65535;
+
 pub trait QuakeClient {
     type Player;
 
@@ -43,7 +48,7 @@ fn get_data_impl<Client: QuakeClient>(socket: &mut UdpSocket) -> GDResult<Vec<u8
         .concat(),
     )?;
 
-    let data = socket.receive(None)?;
+    let data = socket.receive(Some(PACKET_SIZE))?;
     let mut bufferer = Buffer::<LittleEndian>::new(&data);
 
     if bufferer.read::<u32>()? != u32::MAX {
